@@ -975,15 +975,26 @@ impl OutstationSession {
         match guard.get() {
             Some(TransportRequest::Request(info, request)) => {
                 self.on_link_activity();
+                // a retransmission of the last request is answered with the stored response,
+                // byte for byte: its IIN octets must not be refreshed
+                let is_repeat = matches!(
+                    self.classify(info, request),
+                    FragmentType::RepeatNonRead(_, _)
+                );
                 if let Some(mut result) = self
                     .process_request_from_idle(info, request, database)
                     .await
                 {
                     // optional response
                     if let Some(response) = &mut result.response {
-                        *response = self
-                            .write_solicited(io, writer, info.addr, *response, database)
-                            .await?;
+                        if is_repeat {
+                            self.repeat_solicited(io, info.addr, writer, *response)
+                                .await?;
+                        } else {
+                            *response = self
+                                .write_solicited(io, writer, info.addr, *response, database)
+                                .await?;
+                        }
 
                         // check if an extra confirmation was added due to broadcast
                         if response.header.control.con && result.series.is_none() {
